@@ -226,6 +226,11 @@ type KeyEnvelope struct {
 func (k KeyEnvelope) Unwrap(kek []byte) (lorawan.AES128Key, error) {
 	var key lorawan.AES128Key
 
+	// a wrapped 128 bit key is 8 bytes integrity check value + 16 bytes key
+	if len(k.AESKey) != 24 {
+		return key, errors.New("AESKey must be exactly 24 bytes")
+	}
+
 	block, err := aes.NewCipher(kek)
 	if err != nil {
 		return key, errors.Wrap(err, "new cipher error")
